@@ -249,6 +249,8 @@ var _ = strings.Contains
 type FaultCase struct {
 	W   wl.Workload `json:"w"`
 	Sel int         `json:"sel"` // which of the fsyncs issued inside StoreLogs calls fails
+	// AimFirst: choose among the fsyncs (file, directory) of first commits into new segment files only
+	AimFirst bool `json:"aimFirst,omitempty"`
 }
 
 func straceRun(work string, w wl.Workload, inject string) ([]Sys, string, string, error) {
@@ -279,8 +281,8 @@ func TestC07Fault(t *testing.T) {
 	common.Run(t, "C07", "C07Fault", func(t *rapid.T) FaultCase {
 		w := genWorkload(t)
 		w.Retry = true
-		w.RetryReopen = rapid.IntRange(0, 2).Draw(t, "retryReopen") == 0
-		return FaultCase{W: w, Sel: rapid.IntRange(0, 1000).Draw(t, "sel")}
+		w.RetryReopen = rapid.Bool().Draw(t, "retryReopen")
+		return FaultCase{W: w, Sel: rapid.IntRange(0, 1000).Draw(t, "sel"), AimFirst: rapid.Bool().Draw(t, "aimFirstCommit")}
 	}, func(c FaultCase) (res common.Result) {
 		work, err := os.MkdirTemp("", "verif-tracef-")
 		if err != nil {
@@ -307,6 +309,10 @@ func TestC07Fault(t *testing.T) {
 			return
 		}
 		k := st.FsyncInStoreLogs[c.Sel%len(st.FsyncInStoreLogs)]
+		if c.AimFirst && len(st.FirstCommitFsyncs) > 0 {
+			k = st.FirstCommitFsyncs[c.Sel%len(st.FirstCommitFsyncs)]
+			res.Classes = append(res.Classes, "fault-on-first-commit-of-a-new-file")
+		}
 		calls, dir, stderr, err := straceRun(work, c.W, fmt.Sprintf("inject=fsync:error=EIO:when=%d", k))
 		if err != nil {
 			// the workload could not complete even with the retry (e.g. the injected error hit a second thread): no verdict
@@ -318,6 +324,9 @@ func TestC07Fault(t *testing.T) {
 		res.NonTrivial = st2.StoreLogsErr > 0
 		if st2.StoreLogsErr > 0 && c.W.RetryReopen {
 			res.Classes = append(res.Classes, "storelogs-failed-reopened-retried")
+		}
+		if st2.AckWithResidue > 0 {
+			res.Classes = append(res.Classes, "observation:ack-while-adopted-bytes-of-a-failed-call-unsynced")
 		}
 		if st2.StoreLogsErr > 0 {
 			res.Classes = append(res.Classes, "storelogs-failed-then-retried")
